@@ -3,7 +3,8 @@
    M = Model/C02.v (ExpressionEvaluator over the tables generated from the source),
    S = Spec/C02.v (ISO C). *)
 From Coq Require Import ZArith Bool String List.
-From CBI Require Import Lib.Data Gen.C02_tables Model.C02 Spec.C02 Proofs.C02.
+From CBI Require Import Lib.Data Lib.Res Gen.C02_tables Model.C02 Spec.C02 Proofs.C02 Proofs.C02s Proofs.C02l.
+From CBI Require Model.C01 Spec.C01 Proofs.C01.
 Import ListNotations.
 Local Open Scope string_scope.
 
@@ -66,6 +67,88 @@ Proof.
               (ternary_nested_then sa sb sc sd se va vb vc vd ve Ha Hb Hc Hd He)).
 Qed.
 Print Assumptions C02_ternary_right_assoc.
+
+(* Operator semantics: wherever ISO C defines the value of a strict binary operator on
+   intmax_t/uintmax_t operands (usual arithmetic conversions, / and % truncating toward zero,
+   relational and equality operators yielding 0 or 1 of type int, shifts typed by their left
+   operand), M's __apply_binary_op computes exactly that value; && and || yield exactly 0 or 1;
+   the unary operators agree on every representable operand; ?: converts the selected operand
+   to the common type of the second and third. *)
+Theorem C02_operator_semantics :
+  (forall o a b v, strict o = true -> bin_sem o a b = Some v -> apply_binary (bspell o) a b = Some v) /\
+  (forall a b, apply_binary "&&" a b = Some (truth (negb (Z.eqb (vz a) 0) && negb (Z.eqb (vz b) 0)))) /\
+  (forall a b, apply_binary "||" a b = Some (truth (negb (Z.eqb (vz a) 0) || negb (Z.eqb (vz b) 0)))) /\
+  (forall o v, in_range v -> apply_unary (uspell o) v = Some (un_sem o v)) /\
+  (forall c t f, in_range t -> in_range f ->
+     cond_value c t f = convert (if Z.eqb (vz c) 0 then f else t) (vu t || vu f)).
+Proof. exact (conj bin_sem_ok (conj land_ok (conj lor_ok (conj un_sem_ok cond_value_ok)))). Qed.
+Print Assumptions C02_operator_semantics.
+
+(* no operator of the table can raise in M (so evaluating the operand C would skip is harmless) *)
+Theorem C02_operators_total :
+  (forall o a b, exists v, apply_binary (bspell o) a b = Some v /\ in_range v) /\
+  (forall o a, exists v, apply_unary (uspell o) a = Some v /\ in_range v).
+Proof. exact (conj apply_binary_total apply_unary_total). Qed.
+Print Assumptions C02_operators_total.
+
+(* Integer constants, PARTIAL: all four bases, any number of digits, every legal suffix spelling;
+   what is missing from the full statement is exactly the guard - an octal/hex/binary constant
+   without u whose value is in [2^63, 2^64) (S: uintmax_t; the code: OverflowError; finding
+   hex-intmax-overflow, pinned by tests/failure/test_bignum.py). *)
+Theorem C02_literals_partial :
+  forall body sfx v, lit_sem body sfx = Some v -> (vu v = true -> suffix_unsigned sfx = true) ->
+    lit_value (body ++ sfx) = inr v.
+Proof. exact literals_ok. Qed.
+Print Assumptions C02_literals_partial.
+
+Theorem C02_literals_refuted :
+  exists body sfx v, lit_sem body sfx = Some v /\ lit_value (body ++ sfx) <> inr v.
+Proof. exact literals_hex_intmax_refuted. Qed.
+Print Assumptions C02_literals_refuted.
+
+Theorem C02_charconst : forall s v, char_sem s = Some v -> char_value s = inr v.
+Proof. exact charconst_ok. Qed.
+Print Assumptions C02_charconst.
+
+(* an identifier left after expansion is read exactly like the constant 0, in any context *)
+Theorem C02_unknown_identifier_zero :
+  forall f p n r, starts_call r = false ->
+    expression (S f) p (Tok KId n :: r) = expression (S f) p (num "0" :: r).
+Proof. exact identifier_is_zero. Qed.
+Print Assumptions C02_unknown_identifier_zero.
+
+(* `defined X` and `defined(X)` become 1 or 0 according to the macro table, in any context,
+   and evaluate to that truth value *)
+Theorem C02_defined_forms :
+  (forall env n r, String.eqb n "(" = false ->
+     expand env (Tok KId "defined" :: Tok KId n :: r) =
+     match expand env r with inr out => inr (num_tok (is_defined env n) :: out) | inl e => inl e end) /\
+  (forall env n r,
+     expand env (Tok KId "defined" :: lpar :: Tok KId n :: rpar :: r) =
+     match expand env r with inr out => inr (num_tok (is_defined env n) :: out) | inl e => inl e end) /\
+  (forall env n paren, String.eqb n "(" = false ->
+     evaluate_for_platform env (dt_source n paren) = OVal (truth (is_defined env n))).
+Proof. exact (conj defined_plain (conj defined_paren defined_value)). Qed.
+Print Assumptions C02_defined_forms.
+
+(* The last sentence of the property.  (1) For EVERY evaluator of conditions - including one that
+   fails on some conditions - the tree builder + visitor of finder.py computes what the skipping
+   preprocessor computes (this is C01's attribution theorem, re-exported); (2) the skipping
+   preprocessor's step for an #elif of a chain that has already selected a branch does not consult
+   the evaluator: it is the same for any two evaluators.  Hence such an #elif can neither change
+   the result nor fail the analysis. *)
+Theorem C02_skipped_elif_irrelevant :
+  (forall (ST ACT COND : Type) (mark : nat -> ST -> ST) (exec : ACT -> ST -> res ST)
+          (ev : COND -> ST -> res bool) (its : list (Spec.C01.item ACT COND)) (p : ST),
+     Model.C01.run_M ST ACT COND mark exec ev (Spec.C01.flats ACT COND its) p =
+     Spec.C01.run_S ST ACT COND mark exec ev (Spec.C01.flats ACT COND its) p) /\
+  (forall (ST ACT COND : Type) (mark : nat -> ST -> ST) (exec : ACT -> ST -> res ST)
+          (ev1 ev2 : COND -> ST -> res bool) (s : Spec.C01.sst ST) f r id c,
+     Spec.C01.sstk ST s = f :: r -> Spec.C01.taken f = true ->
+     Spec.C01.sstep ST ACT COND mark exec ev1 s (id, Model.C01.KElif c) =
+     Spec.C01.sstep ST ACT COND mark exec ev2 s (id, Model.C01.KElif c)).
+Proof. exact (conj Proofs.C01.attribution skipped_elif_step). Qed.
+Print Assumptions C02_skipped_elif_irrelevant.
 
 (* non-vacuity: 2 + 3 * 4 - 1 is 13, and -7 / 2 is -3 *)
 Example C02_nonvacuous :
